@@ -296,7 +296,14 @@ def rule2_static_init(ctx, fl, v):
         ok = any(g.dominates_f(p, r) for p in pubs) or not _reach_without(g, r, pubs, tests, MAGIC_NO, INITING)
         ctx.ob('C16.2', 'handle[%s]: returns only with a converted mutex' % fl, ok,
                'every return is preceded by the publication, by observing magic_no, or by leaving the spin on initializing', loc=r.loc)
-    ctx.floor('C16.2', 20)
+    # a mutex initialised with pthread_mutex_init is already a converted mutex: its first use must not convert it again
+    nv = ctx.view('myth_if_native.c', roots=['myth_mutex_init_body'], stops=lib.SPIN_STOPS, flavour=fl)
+    mi = ctx.need_fn(nv, 'myth_mutex_init_body')
+    mg = [st for st in mi.stores_to(MAGIC) if const_int(st.ops[0]) == MAGIC_NO and same_value(mi, mi.ap(st.ops[1]).root, mi.params[0]['id'])]
+    ctx.ob('C16.2', 'mutex_init[%s]: marks the mutex as converted' % fl, len(mg) == 1 and mi.always_passes(mi.entry_inst(), mg),
+           'mutex->magic = magic_no on every path: otherwise the first lock takes the initialised mutex for a static initialiser and '
+           'overwrites it (or waits for a converter that does not exist)', loc=mi.loc)
+    ctx.floor('C16.2', 21)
 
 
 def _reach_without(g, ret, pubs, tests, MAGIC_NO, INITING):
@@ -570,6 +577,8 @@ def run(ctx):
 WRAP = 'src/myth_wrap_pthread.c'
 OPTS = 'src/myth-ld.opts'
 MUTANTS = [
+    {'name': 'pthread_mutex_init leaves the magic word unset (sweep M0402)', 'expect': 'C16.2',
+     'edits': [('src/myth_sync_func.h', "  mutex->magic = myth_mutex_magic_no;\n  return 0;", "  return 0;")]},
     {'name': 'losers of the conversion wait while the magic word is NOT initializing (sweep M0338)', 'expect': 'C16.2',
      'edits': [(WRAP, "      while (*magic_p == myth_mutex_magic_no_initializing) { }", "      while (*magic_p != myth_mutex_magic_no_initializing) { }")]},
     {'name': 'real_pthread_attr_getdetachstate dispatches through the inheritsched slot (seed2 C16/m2)', 'expect': 'C16.8',
